@@ -3331,11 +3331,19 @@ func (e *cborEncDriverBytes) writeNilOr(v byte) {
 }
 
 func (e *cborEncDriverBytes) writeNilArray() {
-	e.writeNilOr(cborBaseArray)
+	if e.h.NilCollectionToZeroLength {
+		e.WriteArrayEmpty()
+	} else {
+		e.w.writen1(cborBdNil)
+	}
 }
 
 func (e *cborEncDriverBytes) writeNilMap() {
-	e.writeNilOr(cborBaseMap)
+	if e.h.NilCollectionToZeroLength {
+		e.WriteMapEmpty()
+	} else {
+		e.w.writen1(cborBdNil)
+	}
 }
 
 func (e *cborEncDriverBytes) writeNilBytes() {
@@ -7346,11 +7354,19 @@ func (e *cborEncDriverIO) writeNilOr(v byte) {
 }
 
 func (e *cborEncDriverIO) writeNilArray() {
-	e.writeNilOr(cborBaseArray)
+	if e.h.NilCollectionToZeroLength {
+		e.WriteArrayEmpty()
+	} else {
+		e.w.writen1(cborBdNil)
+	}
 }
 
 func (e *cborEncDriverIO) writeNilMap() {
-	e.writeNilOr(cborBaseMap)
+	if e.h.NilCollectionToZeroLength {
+		e.WriteMapEmpty()
+	} else {
+		e.w.writen1(cborBdNil)
+	}
 }
 
 func (e *cborEncDriverIO) writeNilBytes() {
